@@ -45,6 +45,9 @@ def check_subclass(type_input: type, attr_type: Type) -> bool:
     if attr_type is Any or isinstance(attr_type, TypeVar):
         return True
 
+    if attr_type is None:
+        attr_type = type(None)
+
     if (
         sys.version_info >= (3, 10)
         and isinstance(attr_type, types.UnionType)
@@ -61,6 +64,9 @@ def check_type(value: Any, attr_type: Type) -> bool:
     """
     if attr_type is Any or isinstance(attr_type, TypeVar):
         return True
+
+    if attr_type is None:
+        attr_type = type(None)
 
     if attr_type is float:
         attr_type = numbers.Real
